@@ -127,6 +127,15 @@ def install(mods):
                         refreader.from_nodes(exprs))
                 except Exception as e:  # noqa
                     extra['text_error'] = repr(e)
+            if CONFIG.get('check_filetext') and txt is not None and \
+                    len(txt) <= 20000:
+                # the bytes the command was given, and the leaves of the
+                # tree they were rendered from (C07 on real candidates)
+                extra['ftext'] = txt.decode('utf-8', 'surrogateescape')
+                try:
+                    extra['leaves'] = leaf_tokens(exprs)
+                except Exception as e:  # noqa
+                    extra['leaves_error'] = repr(e)
             emit('check', ld=ld, td=td, verdict=bool(res),
                  dur=time.monotonic() - t0, **extra)
             return res
@@ -189,6 +198,9 @@ def install(mods):
                            if after is not None and len(after) <= 6000
                            and CONFIG.get('write_text') else None),
                      ld=leaf_digest(exprs),
+                     leaves=(leaf_tokens(exprs)
+                             if CONFIG.get('write_text')
+                             and CONFIG.get('check_filetext') else None),
                      td=None if after is None else text_digest(
                          after.decode('utf-8', 'replace')),
                      nbytes=None if after is None else len(after),
